@@ -8,7 +8,7 @@ pub const RULE: &str = "cases: histories over one owned value of RiRefBuf / RiBu
 
 pub const MANDATORY: &[&str] = &[
     "buffer:RiRefBuf", "buffer:RiBuf", "buffer:PathBuf", "route:parsed", "route:default", "route:from_scheme", "route:cloned", "route:converted-from-full",
-    "route:converted-from-reference", "op:set_scheme", "op:set_authority", "op:set_path", "op:set_query", "op:set_fragment", "op:set_userinfo", "op:set_host",
+    "route:converted-from-reference", "route:parsed-spare-capacity", "op:set_scheme", "op:set_authority", "op:set_path", "op:set_query", "op:set_fragment", "op:set_userinfo", "op:set_host",
     "op:set_port", "op:push", "op:pop", "op:clear", "op:symbolic_push", "op:symbolic_append", "op:normalize", "op:resolve", "history-len:1", "history-len:2", "handle:shared-by-run",
 ];
 
@@ -74,7 +74,7 @@ pub fn generate(ctx: &mut Ctx) {
     let mut bi = 0u64;
     let maxlen = if ctx.tiny() { 0 } else { ctx.by_tier(2u64, 3u64) };
     for init in INITS {
-        for (kind, route) in [(0u64, 0u64), (0, 1), (0, 2), (0, 3), (1, 0), (1, 1), (1, 2), (2, 0), (2, 1)] {
+        for (kind, route) in [(0u64, 0u64), (0, 1), (0, 2), (0, 3), (0, 4), (1, 0), (1, 1), (1, 2), (2, 0), (2, 1)] {
             // PathBuf histories start from the path of the initial reference
             let init_s: String = if kind == 2 { String::from_utf8_lossy(crate::model::split(init.as_bytes()).path).to_string() } else { init.to_string() };
             // Default / from_scheme ignore most of the initial text: run them from a few initials only
@@ -101,7 +101,7 @@ pub fn generate(ctx: &mut Ctx) {
         o.long = !ctx.tiny() && rng.chance(1, 10);
         o.bad_pct = rng.chance(1, 5);
         let kind = rng.pick(&[0u64, 0, 0, 1, 1, 2]);
-        let route = rng.below(4) as u64;
+        let route = rng.below(5) as u64;
         let init = if kind == 2 { gen::path(&mut rng, o) } else if kind == 1 { gen::full(&mut rng, o) } else { gen::reference(&mut rng, o) };
         let mut ops: Vec<String> = Vec::new();
         let maxops = if ctx.tiny() { 8 } else { 24 };
